@@ -361,29 +361,15 @@ Qed.
 
 Lemma argv_never_panics : forall pid argv e,
   existsb is_cli_panic (fst (stackwalk pid argv e)) = false /\
-  (snd (stackwalk pid argv e) = 0 \/ snd (stackwalk pid argv e) = 1 \/ snd (stackwalk pid argv e) = 2 \/
-   (snd (stackwalk pid argv e) = 101 /\ In (MainEv PanicEv) (fst (stackwalk pid argv e))))%Z.
+  (snd (stackwalk pid argv e) = 0 \/ snd (stackwalk pid argv e) = 1 \/ snd (stackwalk pid argv e) = 2)%Z.
 Proof.
   intros pid argv e.
   destruct (stackwalk_cases pid argv e) as [[_ H]|[[_ H]|[acc [f [_ [_ H]]]]]]; rewrite H; cbn [fst snd].
-  - split; [reflexivity|]. right; right; left; reflexivity.
+  - split; [reflexivity|]. right; right; reflexivity.
   - split; [reflexivity|]. left; reflexivity.
   - unfold lift. cbn [fst snd]. split.
     + induction (fst (run f e)) as [|ev tr IH]; [reflexivity|]. cbn. exact IH.
-    + destruct (exit_codes_help f e) as [H0|[H1|[H2|[H101 [Hm Hw]]]]]; auto.
-      right; right; right. split; [exact H101|]. apply in_map.
-      unfold run in *. destruct (decide f) eqn:Ed.
-      * destruct r; cbn in H101; try discriminate;
-          pose proof (do_creates_code e (opt_list (f_log_file f)) ([Diag Logger], 1%Z) (or_intror eq_refl)) as Hc;
-          destruct Hc as [Hc|Hc]; rewrite Hc in H101; discriminate.
-      * clear H. induction (opt_list (f_log_file f)) as [|p ps IH]; cbn in *.
-        -- destruct (e_write e Stdout HelpDoc); try congruence; cbn; auto.
-        -- destruct (e_create e p) eqn:Ec.
-           ++ destruct (do_creates e ps _) eqn:Edc. cbn in *. right. apply IH. exact H101.
-           ++ cbn in H101. discriminate.
-           ++ cbn in H101. discriminate.
-      * pose proof (do_creates_code e (opt_list (f_log_file f)) (exec p e) (exec_code p e)) as Hc.
-        destruct Hc as [Hc|Hc]; rewrite Hc in H101; discriminate.
+    + exact (exit_codes_help f e).
 Qed.
 
 (* ------------------------------------------------------------------ every sink is opened before the first report byte *)
@@ -430,7 +416,7 @@ Lemma sinks_opened_before_first_report_byte : forall f e, opens_first (fst (run 
 Proof.
   intros f e. unfold run. destruct (decide f) as [r| |p].
   - destruct r; try reflexivity; apply do_creates_opens_first; reflexivity.
-  - apply do_creates_opens_first. destruct (e_write e Stdout HelpDoc); reflexivity.
+  - apply do_creates_opens_first. apply no_create_opens_first. apply do_writes_no_create.
   - apply do_creates_opens_first. unfold exec. destruct (negb (e_read e)); [reflexivity|].
     apply do_creates_opens_first. destruct (p_process p && negb (e_process e)); [reflexivity|].
     apply no_create_opens_first. apply do_writes_no_create.
@@ -485,7 +471,7 @@ Lemma at_most_one_diagnostic : forall f e, (count_diag (fst (run f e)) <= 1)%nat
 Proof.
   intros f e. unfold run. destruct (decide f) as [r| |p].
   - destruct r; [cbn; auto| |]; apply do_creates_one_diag; cbn; auto.
-  - apply do_creates_one_diag. destruct (e_write e Stdout HelpDoc); cbn; auto.
+  - apply do_creates_one_diag. apply do_writes_one_diag.
   - apply do_creates_one_diag. unfold exec. destruct (negb (e_read e)); [cbn; auto|].
     apply do_creates_one_diag. destruct (p_process p && negb (e_process e)); [cbn; auto|]. apply do_writes_one_diag.
 Qed.
@@ -515,8 +501,7 @@ Lemma logger_diag_cause : forall f e, In (Diag Logger) (fst (run f e)) ->
 Proof.
   intros f e H. unfold run in H. destruct (decide f) as [r| |p] eqn:Ed.
   - destruct r; [cbn in H; destruct H as [H|[]]; discriminate| |]; left; eexists; split; try reflexivity; discriminate.
-  - apply logger_diag_do_creates in H. destruct (e_write e Stdout HelpDoc); cbn in H;
-      repeat (destruct H as [H|H]; try discriminate); destruct H.
+  - apply logger_diag_do_creates in H. exfalso. eapply logger_diag_do_writes; eauto.
   - right. exists p. split; [reflexivity|]. apply logger_diag_do_creates in H. unfold exec in H.
     destruct (e_read e); cbn in H; [|left; reflexivity]. right. split; [reflexivity|].
     apply logger_diag_do_creates in H.
